@@ -2,6 +2,10 @@
 from facts import Sym, path_is, strip_generics, strip_sym, sym_arg, sym_calls, sym_is_call, sym_str, sym_through, sym_walk
 from props.common import is_plain_write, arg_syms, atomic_ops, bool_switches, callee_method_name, calls_to, crate_stats, enum_arms, gates, in_cycle, need, nonforeign_calls, one_method, has_panic_path
 
+KEEP = [  # private helpers the rules name (kept as functions); every other non-exported, non-trait function is spliced into its callers
+    "Block::len", "Block::push", "MetricKindMask::value", "Reservoir::drain",
+    "Reservoir::push", "reservoir::fastrand", "Reservoir::with_capacity",
+]
 TITLE = "C16 the sampling reservoir reports true counts and favours no stream position."
 CONFIGS = ["test-profile", "util-storage"]
 R = "metrics_util::storage::reservoir"
@@ -20,6 +24,9 @@ def const_int(s):
 def self_field(s, field):
     s = strip_sym(s)
     return isinstance(s, tuple) and s and s[0] == "field" and s[2] == field and is_param(s[1], 0)
+
+
+DF = {"unsampled_len": "unsampled_len", "len": "len", "idx": "idx"}
 
 
 def run(ctx):
@@ -84,11 +91,23 @@ def run(ctx):
     drain = one_method(chk, "C16.b", u, RES, "drain")
     if drain:
         r = strip_sym(Sym(drain).local(0))
-        ok = r[0] == "agg" and "len" in r[4] and "unsampled_len" in r[4]
+        # Drain's private counters by role (names are the fallback): the field initialised from count.load() is the
+        # number of pushes, the one initialised with 0 the cursor, the remaining integer the number of retained values
+        if r[0] == "agg":
+            for nm_, v_ in zip(r[4], r[3]):
+                v_ = strip_sym(v_)
+                if sym_is_call(v_, "load") and "'count'" in repr(v_):
+                    DF["unsampled_len"] = nm_
+                elif const_int(v_) == 0:
+                    DF["idx"] = nm_
+            rest_ = [nm_ for nm_, v_ in zip(r[4], r[3]) if nm_ not in (DF["unsampled_len"], DF["idx"]) and not (strip_sym(v_)[0] == "arg")]
+            if len(rest_) == 1:
+                DF["len"] = rest_[0]
+        ok = r[0] == "agg" and DF["len"] in r[4] and DF["unsampled_len"] in r[4]
         if ok:
             f = dict(zip(r[4], r[3]))
-            un = strip_sym(f["unsampled_len"])
-            ln = strip_sym(f["len"])
+            un = strip_sym(f[DF["unsampled_len"]])
+            ln = strip_sym(f[DF["len"]])
             ok = sym_is_call(un, "load") and self_field(strip_sym(un[2][0]), "count")
             if sym_is_call(ln, "Ord::min", "cmp::min", "usize::min"):
                 alts = [strip_sym(x) for x in ln[2]]
@@ -97,7 +116,7 @@ def run(ctx):
                 alts = ln[1] if ln[0] == "phi" else [ln]
                 cmp_ok = any(strip_sym(dd)[0] == "bin" and strip_sym(dd)[1] in ("Gt", "Lt", "Ge", "Le") for bb, dd, t_, f_ in bool_switches(drain.body))
             ok = ok and len(alts) == 2 and any(sym_is_call(strip_sym(a), "len") and "'values'" in repr(a) for a in alts) and any(repr(strip_sym(a)) == repr(un) for a in alts)
-            ok = ok and const_int(f["idx"]) == 0
+            ok = ok and const_int(f[DF["idx"]]) == 0
             ok = ok and cmp_ok
         chk.ob("C16.b", drain.path, ok, "drain: unsampled_len = count.load(); len = min(count, capacity); idx = 0" if ok else "drain does not clamp its length to min(count, capacity)", drain.loc())
     D = f"{R}::Drain"
@@ -107,8 +126,9 @@ def run(ctx):
         alts = [strip_sym(a) for a in (r[1] if r[0] == "phi" else [r])]
         one = any(a[:2] == ("const", "float") and float(a[2]) == 1.0 for a in alts)
         div = [a for a in alts if a[0] == "bin" and a[1] == "Div"]
-        ok = one and len(div) == 1 and "'len'" in repr(div[0][2]) and "'unsampled_len'" in repr(div[0][3]) and "'unsampled_len'" not in repr(div[0][2])
-        eq = any(strip_sym(dd)[0] == "bin" and strip_sym(dd)[1] == "Eq" and {"'len'" in repr(dd), "'unsampled_len'" in repr(dd)} == {True} for bb, dd, t_, f_ in bool_switches(sr.body))
+        L_, U_ = f"'{DF['len']}'", f"'{DF['unsampled_len']}'"
+        ok = one and len(div) == 1 and L_ in repr(div[0][2]) and U_ in repr(div[0][3]) and U_ not in repr(div[0][2])
+        eq = any(strip_sym(dd)[0] == "bin" and strip_sym(dd)[1] in ("Eq", "Ne") and {L_ in repr(dd), U_ in repr(dd)} == {True} for bb, dd, t_, f_ in bool_switches(sr.body))
         chk.ob("C16.b", sr.path, ok and eq, "sample_rate = 1.0 if unsampled_len == len else len / unsampled_len" if ok and eq else "sample_rate is not yielded / pushed", sr.loc())
     nx = (u.method(D, "next", "Iterator") or [None])[0]
     if nx:
@@ -120,9 +140,10 @@ def run(ctx):
             x = strip_sym(x)
             if isinstance(x, tuple) and x and x[0] == "bin" and x[1] in ("Lt", "Le", "Gt", "Ge"):
                 l_, r_ = repr(strip_sym(x[2])), repr(strip_sym(x[3]))
-                if "'idx'" in l_ and "'len'" in r_ and "'idx'" not in r_:
+                I_, L_ = f"'{DF['idx']}'", f"'{DF['len']}'"
+                if I_ in l_ and L_ in r_ and I_ not in r_:
                     return {"Lt": ("P", "N"), "Ge": ("N", "P")}.get(x[1])
-                if "'len'" in l_ and "'idx'" in r_ and "'idx'" not in l_:
+                if L_ in l_ and I_ in r_ and I_ not in l_:
                     return {"Gt": ("P", "N"), "Le": ("N", "P")}.get(x[1])
             return None
 
@@ -156,14 +177,22 @@ def run(ctx):
                         if isinstance(lab, bool) and flag_pred(strip_sym(dd)):
                             out[lab] = fld
         return out
+    asr_adt = u.adts.get(ASR) or {}
+    flag_f, sides = "use_primary", []
+    for fl_ in asr_adt.get("variants", [{}])[0].get("fields", []):
+        if "Atomic<bool>" in fl_.get("ty", "") or "AtomicBool" in fl_.get("ty", ""):
+            flag_f = fl_["name"]
+        elif fl_.get("ty", "").endswith("reservoir::Reservoir"):
+            sides.append(fl_["name"])
+    FLAG = f"'{flag_f}'"
     if cons and pushf:
-        pt = side_table(pushf, lambda dd: sym_is_call(dd, "load") and "'use_primary'" in repr(dd))
-        ct = side_table(cons, lambda dd: sym_is_call(dd, "load") and "'use_primary'" in repr(dd))
-        ok = pt == {True: "primary", False: "secondary"} and ct == pt
+        pt = side_table(pushf, lambda dd: sym_is_call(dd, "load") and FLAG in repr(dd))
+        ct = side_table(cons, lambda dd: sym_is_call(dd, "load") and FLAG in repr(dd))
+        ok = len(pt) == 2 and set(pt.values()) == set(sides) and len(sides) == 2 and ct == pt
         chk.ob("C16.b", f"{ASR} [push ~ consume side table]", ok, "use_primary == true <-> primary in both push and consume (consume drains the side that was active)" if ok else f"push uses {pt}, consume drains {ct}: consume must drain the side that pushes were going to before the flip", cons.loc())
         b = cons.body
         lk = [c for c in nonforeign_calls(cons) if c.fn is cons and c.is_("Mutex<T>::lock")]
-        st = [o for o in atomic_ops(cons) if is_plain_write(o) and "'use_primary'" in repr(o[2])]
+        st = [o for o in atomic_ops(cons) if is_plain_write(o) and FLAG in repr(o[2])]
         dr = [c for c in nonforeign_calls(cons) if c.fn is cons and c.is_("Reservoir::drain")]
         cb = [c for c in nonforeign_calls(cons) if c.fn is cons and c.is_("FnMut::call_mut", "FnOnce::call_once") and is_param(sym_through(arg_syms(c)[0]), 1)]
         ok = len(lk) == 1 and len(st) == 1 and len(dr) in (1, 2) and len(cb) == 1 and all(b.dominates(lk[0].bb, x.bb) for x in [st[0][0]] + dr + cb)
